@@ -296,7 +296,9 @@ class FftScenario(Scenario):
                     if case == 'short-scratch' and sc is not None and i == lam_max_i:
                         ev.append(E('propagate_fft', ['@' + w1], dict(k, scratch='@' + short), t={'expect': 'refuse', 'case': case}))
                     elif case == 'big-shape':
-                        kb = dict(k, shape=[gr // os_ + rng.randint(1, 3), max(1, gc // os_)])
+                        which_ax = rng.choice(['rows', 'cols', 'cols', 'both'])
+                        kb = dict(k, shape=[gr // os_ + rng.randint(1, 3) if which_ax in ('rows', 'both') else max(1, gr // os_ - rng.randint(0, 2)),
+                                            gc // os_ + rng.randint(1, 3) if which_ax in ('cols', 'both') else max(1, gc // os_ - rng.randint(0, 2))])
                         if sc is not None:
                             kb['scratch'] = '@' + sc
                         ev.append(E('propagate_fft', ['@' + w1], kb, t={'expect': 'refuse', 'case': case}))
